@@ -9,7 +9,8 @@
 (*   progs[3] = P2 = export(read(write(read(text))))   role "Writer"          *)
 (* and the recorded outcome of the pipeline, c.status:                        *)
 (*   "ok" | "read-error" | "write-error" | "reread-error"                     *)
-(* (an exception other than the documented fall-back to a CodeBlock).         *)
+(* (an exception other than the documented fall-back to a CodeBlock), or      *)
+(*   "read-decl" | "write-decl": type / shape of a declared variable changed. *)
 (* Every program is run from the same initial store for every input           *)
 (* valuation x array fill.  progs[k] is compared with progs[k-1]: a P/P1      *)
 (* difference is the reader's (clauses ReaderSameObservable,                  *)
@@ -40,6 +41,8 @@ Init == /\ cid \in 1..Len(Cases)
 StatusClause(s) == CASE s = "read-error"   -> "ReadsWithoutInternalError"
                      [] s = "write-error"  -> "WritesWithoutInternalError"
                      [] s = "reread-error" -> "WrittenTextReadable"
+                     [] s = "read-decl"    -> "ReaderKeepsDeclarations"
+                     [] s = "write-decl"   -> "WriterKeepsDeclarations"
                      [] OTHER              -> "WellFormedCase"
 
 Report(c, clause, names) ==
